@@ -8,6 +8,13 @@ ROOT = os.path.dirname(os.path.dirname(os.path.abspath(__file__)))
 
 # id -> (category, technique, text, note, design_ref)
 CHECKS = {
+    "C06": (
+        "fault_enumeration",
+        "failpoint enumeration over every user-callback invocation of every generated program, with an exception-class monitor, weakref liveness sentinels, a reflection-based container census, follow-up renders and a steady-state growth monitor",
+        "600 (quick) / 6000 (thorough) generated programs; for each, a clean run counts the user-code invocations (get_context_data, inject, on_render_before/after, slot functions, harness filter and tag) and then EVERY invocation index is made to raise (exception kind rotating over ValueError, KeyError(7), OSError(2,'x'), a multi-line custom error; all four per index in the thorough tier). After each failed render: the surfaced exception must be of the injected class and carry the failing component's path, sentinels given to the render (context value, kwarg, slot functions, the Context) must be dead after gc, the census of all module-level containers of django_components.* must equal the warm baseline, the caller's Context must have its layers back, a later clean render must equal the baseline; a steady-state run of 60 / 300 alternating clean and failing renders must not grow the census or the gc object count (> 0.2 objects per repetition).",
+        "Exhaustive in the callback index per program, sampled in programs; unbounded repetition is out of reach - growth is judged over K repetitions.",
+        "DESIGN.md §2 C06",
+    ),
     "C04": (
         "exploration",
         "reference-interpreter monitor (rendered classes in first-appearance order) on the parsed delivered document and on the decoded loader JSON; three delivery routes compared",
